@@ -150,7 +150,7 @@ PROPERTIES = {
     "C11": {
         "level": "proof",
         "must_fail_quick": False,     # the vacuity twins of these units run under the property that owns each unit (and in C11 thorough)
-        "verus_units": ["arith_widen", "arith128", "widediv", "nofrac", "fracops", "round@*", "transc", "log2inner", "sqrtacc", "powiacc", "leaves", "decbin", "decbin128", "parsetop", "digitsint", "tokeniser", "decfrac", "powfrac", "fmttop", "fmtdigits", "fmtround", "cmp@*", "fromfixed@*", "fromfloat@*", "wrapping", "traitfwd@*", "intconv", "floatglue", "trig", "cmpfloat@*", "cmpfloatrev@*", "cmpint@*", "cmpintrev@*", "bitops@*", "remint@*", "diveuclid@*"],
+        "verus_units": ["arith_widen", "arith128", "widediv", "nofrac", "fracops", "round@*", "transc", "log2inner", "sqrtacc", "powiacc", "leaves", "decbin", "decbin128", "parsetop", "digitsint", "tokeniser", "decfrac", "powfrac", "parsepolicy@*", "fmttop", "fmtdigits", "fmtround", "cmp@*", "fromfixed@*", "fromfloat@*", "wrapping", "traitfwd@*", "intconv", "floatglue", "trig", "cmpfloat@*", "cmpfloatrev@*", "cmpint@*", "cmpintrev@*", "bitops@*", "remint@*", "diveuclid@*"],
         "kani": [{"harness": h, "classes": ["panic"]} for h in
                  _mods("arith8", ["i4f4", "i0f8", "u4f4", "u0f8"], FORMS) + ["arith8::abs_forms_i8"] + TFH
                  + ["float::check_to_f32", "float::check_to_f64", "float::check_kind_f32", "float::check_kind_f64"]
@@ -166,7 +166,7 @@ PROPERTIES = {
     },
     "C08": {
         "level": "other",
-        "verus_units": ["leaves", "decbin", "decbin128", "parsetop", "digitsint", "tokeniser", "decfrac", "powfrac"],
+        "verus_units": ["leaves", "decbin", "decbin128", "parsetop", "digitsint", "tokeniser", "decfrac", "powfrac", "parsepolicy@*"],
         "kani": ["parse::parse_u8_hex", "parse::parse_u8_oct", "parse::parse_u8_bin", "parse::parse_i8_hex", "parse::parse_error_kinds",
                  "parse::parse_u8_dec", "parse::parse_i8_dec", "parse::policy_forms_u4f4_dec", "parse::policy_forms_i4f4_hex"],
         "kani_thorough": ["parse::policy_forms_i4f4_dec", "parse::policy_forms_u4f4_oct", {"harness": "parse::parse_u8_dec_long", "timeout": 9000}, {"harness": "parse::parse_i8_dec_long", "timeout": 9000}],
@@ -194,8 +194,14 @@ PROPERTIES = {
                        "classes of a grammar written independently of the tokeniser; complete within the bound, loops closed by unwinding assertions; "
                        "the policy forms of the public API (plain: overflow error; saturating: the bound on the literal's side; wrapping: the wrapped value) against the "
                        "overflowing form on every ASCII string of at most 4 bytes, I4F4 / U4F4, radix 10 / 16 (8 in thorough)",
-        "bounded_parts": ["policy forms (impl_from_str_traits!: closures, str::starts_with, str::as_bytes): Kani on I4F4 / U4F4, strings of at most 4 bytes - the only part of the parser not under a Verus contract"],
-        "assumptions": ["unit parsetop: the contracts of the four integer digit loops, of the four fraction parsers and of parse_bounds are declared there (external_body, hand-declared signatures generic over the "
+        "bounded_parts": ["`impl FromStr for F :: from_str` (a foreign trait's method, one line: `Self::from_str_radix(s, 10)`) is the only function of the parser not under a Verus contract: Kani policy_forms_*_dec "
+                          "(I4F4 / U4F4, ASCII strings of at most 4 bytes).  The policy forms themselves are proved in unit parsepolicy@<family> for all ten families (R24: tuple-pattern closures): FromStrRadix::from_str_radix / "
+                          "saturating_ / wrapping_ / overflowing_from_str_radix and the fifteen inherent forwarders of macros_from_to.rs against pol_checked / pol_saturating / pol_wrapping / pol_overflowing of specs/parsepolicy.rs "
+                          "(value in range or Overflow error; clamp to the bound on the literal's side; value mod 2^W; (value mod 2^W, flag iff out of range); any other string: the error kind of its first offending byte), "
+                          "on the contract of from_str_iN / from_str_uN proved in unit parsetop (one text, contracts/fromstr_top.inc); the Kani policy harnesses remain as cross-check and counterexample generator"],
+        "assumptions": ["unit parsepolicy: str::as_bytes is vstd's specification (the bytes of the string); str::starts_with is assumed to be a function of the string and the pattern, and for the pattern '-' to be "
+                        "'the first byte is 0x2D' (axiom ax_starts_minus: a UTF-8 fact about core); inherent from_bits / min_value / max_value / INT_NBITS / FRAC_NBITS are assumed with the contracts proved in units nofrac / round",
+                        "unit parsetop: the contracts of the four integer digit loops, of the four fraction parsers and of parse_bounds are declared there (external_body, hand-declared signatures generic over the "
                         "result type) with the statements proved in units digitsint / decfrac / powfrac / tokeniser; "
                         "unit decfrac: the contracts of DecToBin::dec_to_bin / parse_is_short and of dec_str_int_to_bin are assumed with the statements proved in units decbin / decbin128 / digitsint; "
                         "IntHelper::MSB is a literal tied to the source text by //@require_source",
@@ -337,15 +343,17 @@ PROPERTIES = {
         "verus_units_thorough": ["nofrac", "fracops", "round@*"],
         "kani": _mods("wrap8", ["i4f4", "i0f8", "u4f4", "u0f8"], ["arith_ops", "bit_and_shift_ops", "rounding_and_conversion"])
                 + ["wrap8::i4f4::ref_and_assign_forms", "wrap8::u4f4::ref_and_assign_forms"]
-                + ["wrap8::signed_only_ops", "wrap8::fold_i4f4", "wrap8::fold_i1f7", "wrap8::fold_i0f8", "wrap8::fold_u0f8", "wrap8::fold_u4f4"],
-        "kani_thorough": _mods("wrap8", ["i8f0", "u8f0"], ["arith_ops", "bit_and_shift_ops", "rounding_and_conversion"]),
+                + ["wrap8::signed_only_ops", "wrap8::fold_i4f4", "wrap8::fold_i1f7", "wrap8::fold_i0f8", "wrap8::fold_u0f8", "wrap8::fold_u4f4", "wrap8::parse_forwarders_i4f4"],
+        "kani_thorough": ["wrap8::parse_forwarders_u4f4"] + _mods("wrap8", ["i8f0", "u8f0"], ["arith_ops", "bit_and_shift_ops", "rounding_and_conversion"]),
         "explanation": "Verus, generic over F: every operator impl (6 forms each of + - * / %, 6 forms of & | ^, !, unary -, 288 shift impls by the 12 "
                        "primitive integer types) and 32 inherent methods of Wrapping<F> are verified against the trait-level contracts of Fixed "
                        "(exact result modulo 2^w; shift amount reduced modulo the bit width of F); unit traitfwd@<family> proves that each family's "
                        "`impl Fixed/FixedSigned/FixedUnsigned` forwarder meets those trait-level contracts from the inherent-method contracts, and the "
                        "18 integer-right-hand-side impls per family; units nofrac/fracops/round prove the inherent wrapping_* methods.  Kani: the same "
                        "operators on 8-bit layouts end to end, plus sum/product and parsing forwarders",
-        "bounded_parts": ["Sum/Product (iterator folds) and the from_str* forwarders (`Result::map(Wrapping)`): Kani on 8-bit layouts only, folds over at most 3 elements",
+        "bounded_parts": ["Sum/Product (iterator folds): Kani on 8-bit layouts only, folds over at most 3 elements",
+                          "the four parsing forwarders (FromStr::from_str, from_str_binary / _octal / _hex) are under a Verus contract generic over F (unit wrapping, R24 / R25: result == the wrapping parser of F mapped into Wrapping; "
+                          "what that parser returns is proved per family in unit parsepolicy); the Kani harness wrap8::parse_forwarders_* (ASCII strings of at most 4 bytes, I4F4 / U4F4) is the counterexample generator and is bounded",
                           "next_power_of_two (Option::unwrap_or_default): Kani wrap8 only"],
         "assumptions": ["trait-level contracts of `Fixed` (contracts/fixed_trait.inc) are assumed by unit wrapping and proved per family by unit traitfwd",
                         "methods whose inherent contract is not mathematical here (count_ones.., rotate_*, wrapping_div_euclid*, wrapping_rem_euclid_int, "
